@@ -69,6 +69,10 @@ class C20:
                                          describe=lambda c, io, mo: str(c.meta))
         cov["samples"] = lib.sample_of(cases[nc + 10:], 2) + lib.sample_of(cases[-1:], 1)
         cov["exhaustive"] = True
+        # the same recovery inside the whole proxy: backends reached over TCP close their connection now and then, the next
+        # request for them must arrive on a new one (model ProxyTB, judges: one destination, the right backend)
+        import proxycheck as pc
+        pc.explore_tb(ctx, "C20", ["proxytb-C03", "proxytb-C04"], cov, failures)
         return {"coverage": cov, "failures": failures}
 
 
